@@ -107,6 +107,13 @@ pub fn timer_jobs(thorough: bool) -> Vec<Job> {
     v.push(job(Cfg::new("timer.local", &[("k", 3), ("clock0", 5), ("deadlines", 0b0110), ("delays", 0b10_0000_0011), ("span", 3)]), false, thorough));
     if thorough {
         v.push(job(Cfg::new("timer.local", &[("k", 5), ("clock0", 0), ("deadlines", 0b0110), ("delays", 0b10), ("span", 3)]), false, true));
+        // heap shapes with 5 / 6 simultaneously registered timers over three deadlines
+        v.push(job(Cfg::new("timer.local", &[("k", 5), ("clock0", 0), ("deadlines", 0b1110), ("delays", 0), ("span", 2)]), false, true));
+        v.push(job(Cfg::new("timer.local", &[("k", 6), ("clock0", 0), ("deadlines", 0b1110), ("delays", 0), ("span", 0)]), false, true));
+    } else {
+        // registration / cancellation only (the clock stands still): every heap shape that 5
+        // simultaneously registered timers over three deadlines, duplicates included, can reach
+        v.push(job(Cfg::new("timer.local", &[("k", 5), ("clock0", 0), ("deadlines", 0b1110), ("delays", 0), ("span", 0)]), false, false));
     }
     v
 }
@@ -193,6 +200,22 @@ pub fn burst_jobs(thorough: bool, kinds: &[i64]) -> Vec<Job> {
             v.push(job(Cfg::new("burst", &[("kind", k), ("fair", 0), ("n", n)]), false, thorough));
         } else {
             v.push(job(Cfg::new("burst", &[("kind", k), ("n", n)]), false, thorough));
+        }
+    }
+    v.extend(script_jobs(thorough, kinds, false));
+    // chain mode of the mpmc kinds belongs to C10 (see `plan`)
+    let chain: Vec<i64> = kinds.iter().copied().filter(|k| [1, 7, 8].contains(k)).collect();
+    v.extend(script_jobs(thorough, &chain, true));
+    v
+}
+
+/// scripted bursts with N around 2^8 and 2^16 (sys_burst.rs, `Script`)
+pub fn script_jobs(thorough: bool, kinds: &[i64], chain: bool) -> Vec<Job> {
+    let mut v = vec![];
+    for &k in kinds {
+        let fairs: &[i64] = if k == 1 || k == 8 { &[1, 0] } else { &[0] };
+        for &fair in fairs {
+            v.push(job(Cfg::new("burstscript", &[("kind", k), ("fair", fair), ("chain", chain as i64)]), false, thorough));
         }
     }
     v
@@ -306,7 +329,12 @@ pub fn plan(prop: &str, tier: &str) -> Vec<Job> {
             v.extend(burst_jobs(t, &[7]));
             v
         }
-        "C08" | "C10" => mpmc_jobs(t, true),
+        "C08" => mpmc_jobs(t, true),
+        "C10" => {
+            let mut v = mpmc_jobs(t, true);
+            v.extend(script_jobs(t, &[2, 3], true));
+            v
+        }
         "C09" => mpmc_jobs(t, false),
         "C14" => {
             let mut v = event_jobs(t);
